@@ -1,4 +1,5 @@
 import SaModel.Spec.Present
+import SaModel.Read.PresentCodec
 import SaModel.Read.Cast
 /-
 C02 — the ONE place where the reader-side specification `Spec/Present.lean` (written from the documentation; imports nothing of
@@ -47,16 +48,10 @@ example : presentPrim .date32 18262 = .int .i32 18262 ∧ presentPrim .float16 0
     presentTime .duration (-5) = .int .i64 (-5) ∧ presentPrim .uint64 18446744073709551615 = .int .u64 18446744073709551615 := by
   decide
 
-/-! ### the codec of the reader model as the parameter of the specification -/
+/-! ### the codec of the reader model as the parameter of the specification
 
-/-- the texts the reader model renders (`Read/Reader.lean`: `Codec.dateToString`, `timeToString`, `timestampToString`,
-`formatArrowDurationAsSpan`, `Decimal.formatDecimal` — the functions of C14 / C15) -/
-def readCodec : TextCodec where
-  date is64 x := (dateRepr (if is64 then .date64 else .date32) x).toOption
-  time u x := (timeRepr u x).toOption
-  timestamp u utc x := (do pure (charsBytes (← Codec.timestampToString (readUnit u) utc x)) : R Bytes).toOption
-  duration u x := durationRepr u x
-  decimal s x := decimalRepr s x
+`Read.readCodec` (`Read/PresentCodec.lean`): the texts the reader model renders (`Codec.dateToString`, `timeToString`,
+`timestampToString`, `formatArrowDurationAsSpan`, `Decimal.formatDecimal` — the functions of C14 / C15). -/
 
 /-- a claim of `Read.cast` as a demand of the specification: the message of a must-fail claim is dropped -/
 def demandOf {α : Type} : R (Option α) → Demand α
